@@ -98,7 +98,16 @@ TraceSetConfig ==
         /\ Report(e, Failing({<<"C06.raised", e.exc = "">>,
                               <<"C06.state_after_assigning_configuration", e.exc # "" \/ ObjOfRec(e.post) = o>>}))
 
-Next == TraceNew \/ TraceEER \/ TraceEERCounts \/ TraceSetEasy \/ TraceSetConfig
+(* history: the caller re-binds one of the (sorted) score arrays of a live object               *)
+TraceSetScores ==
+  /\ IsEvent("SetScores")
+  /\ LET e == Log[l]
+         o == IF e.cls = "pos" THEN [store[e.h] EXCEPT !.pos = e.seq] ELSE [store[e.h] EXCEPT !.neg = e.seq]
+     IN /\ store' = (e.h :> o) @@ store /\ UNCHANGED base
+        /\ Report(e, Failing({<<"C06.raised", e.exc = "">>,
+                              <<"C06.state_after_rebinding_scores", e.exc # "" \/ ObjOfRec(e.post) = o>>}))
+
+Next == TraceNew \/ TraceEER \/ TraceEERCounts \/ TraceSetEasy \/ TraceSetConfig \/ TraceSetScores
 Spec == Init /\ [][Next]_vars
 AllConsumed == TLCGet("stats").diameter - 1 = Len(Log)
 =============================================================================
